@@ -85,8 +85,14 @@ def main():
         old = os.path.join(d, "meta.json")
         if os.path.exists(old):
             prev = json.load(open(old))
-            if prev.get("history"):
-                meta["history"] = prev["history"]
+            hist = list(prev.get("history") or [])
+            if prev.get("caught_by") and prev["caught_by"] != caught:
+                hist.append({"earlier_attempt": prev["caught_by"], "note": "result of an earlier run of the checks (machinery as it was then); see DESIGN.md section 11 for what was strengthened in between"})
+            if hist:
+                meta["history"] = hist
+            for k in ("breaks", "summary", "needs_to_manifest", "files_changed", "origin"):
+                if not meta.get(k) and prev.get(k):
+                    meta[k] = prev[k]
         with open(old, "w") as fh:
             json.dump(meta, fh, indent=1)
         print(name, "verified" if ok else "NOT VERIFIED", {k: ("caught" if "caught" in v.split(":")[1][:8] else "MISSED") for k, v in caught.items()})
